@@ -2,6 +2,7 @@ import Mathlib.Data.List.Nodup
 import Mathlib.Tactic.IntervalCases
 import Proofs.TournamentSelect
 import Proofs.TournGenEq
+import Proofs.PopGenEq
 
 /-!
 # C05 — tournament selection keeps the fittest and builds a well-formed generation
@@ -401,6 +402,131 @@ theorem C05_source_translation_guard (clone : Agent → Option Int → Bool → 
 
 end source_translation
 
+/-! ## the initial population: `create_population` / `EvolvableAlgorithm.population`
+
+`Tournament.initialPop n` is the population both functions build as far as selection is concerned: `n` members that
+have never been evaluated, member `i` constructed with `index = i`.  It discharges the hypothesis "the indices of the
+first population are distinct" of `C05_indices_distinct_forever`. -/
+
+/-- **Base case.**  The initial population of any size has exactly that many members, member `k` carries index `k`,
+    and the indices are pairwise distinct. -/
+theorem C05_initial_population_indices (n : Nat) :
+    (initialPop n).length = n ∧
+    (initialPop n).map (·.index) = (List.range n).map Int.ofNat ∧
+    ((initialPop n).map (·.index)).Nodup ∧
+    (∀ k, k < n → ((initialPop n)[k]?.map (·.index)) = some (Int.ofNat k)) := by
+  have hidx : (initialPop n).map (·.index) = (List.range n).map Int.ofNat := by
+    simp [initialPop, Function.comp_def]
+  refine ⟨by simp [initialPop], hidx, ?_, ?_⟩
+  · rw [hidx]
+    exact List.Nodup.map (fun a b h => by simpa using h) List.nodup_range
+  · intro k hk
+    simp [initialPop, hk]
+
+/-- **Base case + induction.**  Build a population of `n ≥ 1` agents with `create_population` and call `select` any
+    number of times (one selector; anything may happen to the agents between the calls, see `Reach`): after every
+    call the indices are pairwise distinct — no hypothesis about the first population is left. -/
+theorem C05_initial_population_then_generations_distinct (c : Cfg) (hv : c.valid) (n : Nat) (hn : 0 < n)
+    (q : List Agent) (hreach : Reach c (initialPop n) q) :
+    (q.map (·.index)).Nodup ∧ q ≠ [] ∧ (q = initialPop n ∨ q.length = c.popSize) := by
+  refine C05_indices_distinct_forever c hv (initialPop n) q hreach ?_ (C05_initial_population_indices n).2.2.1
+  intro e
+  have := (C05_initial_population_indices n).1
+  rw [e] at this; simp at this; omega
+
+section source_translation_population
+open TournGen
+
+/-! ### the same over the population translated from the source text
+
+`harness/py2lean_pop.py` translates `create_population` (`agilerl/utils/utils.py`, every `algo == "…"` branch) and the
+classmethod `EvolvableAlgorithm.population` (`agilerl/algorithms/core/base.py`) of the tree under test into
+`Gen/PopGen.lean`: the list of members, each the provenance term of the expression that builds it (`PopGen.Val`), the
+loop bound and the `index=` argument as integer expressions.  `PopGen.toAgent` reads a member as a Tournament agent
+through the `index` argument of its constructor call (no reading if there is none).  `PopGen.algos` are the literals
+`algo` is compared with.  A dropped `index=idx`, `index=idx + 1`, `range(population_size - 1)`, a second `append`
+change the generated text and these statements stop checking. -/
+
+/-- **`create_population` builds a well-formed first generation, in every branch**: for every algorithm name the
+    function knows and every `population_size` (any integer) the translated function returns `population_size`
+    members (none for a size ≤ 0), member `k` is constructed with `index = k`, so the indices are exactly
+    `0 … population_size-1` in order and pairwise distinct.  For a name it does not know it returns the empty list. -/
+theorem C05_source_translation_initial_population_distinct (algo : String) (n : Int) :
+    (algo ∈ PopGen.algos →
+      (PopGen.create_population algo n).map PopGen.toAgent = (initialPop n.toNat).map some ∧
+      (PopGen.create_population algo n).length = n.toNat ∧
+      (PopGen.create_population algo n).map PopGen.Val.indexOf =
+        (List.range n.toNat).map (fun k => some (Int.ofNat k)) ∧
+      ((PopGen.create_population algo n).map PopGen.Val.indexOf).Nodup) ∧
+    (algo ∉ PopGen.algos → PopGen.create_population algo n = []) := by
+  refine ⟨fun h => ?_, fun h => PopGen.gen_create_population_unknown algo h n⟩
+  have e := PopGen.gen_create_population_eq algo h n
+  have hlen : (PopGen.create_population algo n).length = n.toNat := by
+    have := congrArg List.length e
+    simpa [(C05_initial_population_indices n.toNat).1] using this
+  have hidx : (PopGen.create_population algo n).map PopGen.Val.indexOf =
+      (List.range n.toNat).map (fun k => some (Int.ofNat k)) := by
+    have := congrArg (List.map (Option.map (·.index))) e
+    simpa [PopGen.toAgent, initialPop, Function.comp_def, Option.map_map] using this
+  refine ⟨e, hlen, hidx, ?_⟩
+  rw [hidx]
+  exact List.Nodup.map (fun a b h => by simpa using h) List.nodup_range
+
+/-- the classmethod `EvolvableAlgorithm.population(size, …)`, with and without `wrapper_cls`: `size` members, member
+    `k` constructed with `index = k` (a wrapped member is read through the agent it wraps) -/
+theorem C05_source_translation_population_classmethod_distinct (wrapperGiven : Bool) (n : Int) :
+    (PopGen.population wrapperGiven n).map PopGen.toAgent = (initialPop n.toNat).map some ∧
+    (PopGen.population wrapperGiven n).length = n.toNat ∧
+    ((PopGen.population wrapperGiven n).map PopGen.Val.indexOf).Nodup := by
+  have e := PopGen.gen_population_eq wrapperGiven n
+  have hlen : (PopGen.population wrapperGiven n).length = n.toNat := by
+    have := congrArg List.length e
+    simpa [(C05_initial_population_indices n.toNat).1] using this
+  have hidx : (PopGen.population wrapperGiven n).map PopGen.Val.indexOf =
+      (List.range n.toNat).map (fun k => some (Int.ofNat k)) := by
+    have := congrArg (List.map (Option.map (·.index))) e
+    simpa [PopGen.toAgent, initialPop, Function.comp_def, Option.map_map] using this
+  refine ⟨e, hlen, ?_⟩
+  rw [hidx]
+  exact List.Nodup.map (fun a b h => by simpa using h) List.nodup_range
+
+/-- generations produced by the TRANSLATED `select` (`Gen/TournGen.lean`), one selector: each call is given any
+    non-empty population `q'` (the previous generation after evaluation / training / mutation, or any other), the
+    values numpy returned for it, and yields `new` -/
+inductive GenReach (c : Cfg) : List Agent → List Agent → Prop
+  | refl (p : List Agent) : GenReach c p p
+  | step {p q q' new : List Agent} {elite : Agent} {s0 s1 s2 : List Nat} {draws : Nat → List Nat} :
+      GenReach c p q → q' ≠ [] → NumpyOk c q' s0 s1 s2 draws →
+      (toGen c).select (opsWith modelClone) q' s0 s1 s2 draws = some (elite, new) → GenReach c p new
+
+theorem GenReach.toReach {c : Cfg} (hv : c.valid) {p q : List Agent} (h : GenReach c p q) : Reach c p q := by
+  induction h with
+  | refl => exact Reach.refl _
+  | @step q q' new elite s0 s1 s2 draws _ hne ok hsel ih =>
+    rw [(gen_select_eq c hv q' hne s0 s1 s2 draws ok.h0 ok.h1 ok.h2 ok.hd).1] at hsel
+    simp only [Option.some.injEq, Prod.mk.injEq] at hsel
+    rw [← hsel.2]
+    exact Reach.step ih hne ok.ranking
+
+/-- **`create_population` followed by any number of generations of `select` keeps the indices distinct** — both
+    ends translated from the source: the first generation is what the translated `create_population` returns for a
+    known algorithm name and a size ≥ 1, every later generation is what the translated `select` returns.  After every
+    generation the indices are pairwise distinct, the population is non-empty and (after the first `select`) has
+    `population_size` members. -/
+theorem C05_source_translation_create_population_then_select_distinct (algo : String) (h : algo ∈ PopGen.algos)
+    (n : Int) (hn : 0 < n) (pop : List Agent)
+    (hpop : (PopGen.create_population algo n).map PopGen.toAgent = pop.map some)
+    (c : Cfg) (hv : c.valid) (q : List Agent) (hreach : GenReach c pop q) :
+    (q.map (·.index)).Nodup ∧ q ≠ [] ∧ (q = pop ∨ q.length = c.popSize) := by
+  have e := (C05_source_translation_initial_population_distinct algo n).1 h
+  have hp : pop = initialPop n.toNat := by
+    have := hpop.symm.trans e.1
+    exact (List.map_injective_iff.mpr (Option.some_injective _)) this
+  subst hp
+  exact C05_initial_population_then_generations_distinct c hv n.toNat (by omega) q (hreach.toReach hv)
+
+end source_translation_population
+
 /-! ### non-vacuity: a concrete 4-agent population with a three-way tie at the top -/
 
 def exPop : List Agent :=
@@ -446,5 +572,16 @@ example : Reach exCfg exPop (newPop exCfg (stableRank (keys 2 exPopB)) exPopB ex
     (by decide) (C05_ranking_exists 2 exPopB)
 example : Reach exCfg exPop (newPop exCfg (stableRank (keys 2 exPop)) exPop exDraws) :=
   Reach.step (Reach.refl _) (by decide) (C05_ranking_exists 2 exPop)
+
+/-- the translated `create_population` on concrete sizes: indices 0, 1, 2; a wrapped DDPG member is read through the
+    agent it wraps; a size ≤ 0 and an unknown name build nobody; the classmethod with a wrapper -/
+example : (PopGen.create_population "TD3" 3).map PopGen.Val.indexOf = [some 0, some 1, some 2] := by decide +kernel
+example : (PopGen.create_population "DDPG" 2).map PopGen.Val.indexOf = [some 0, some 1] := by decide +kernel
+example : (PopGen.create_population "DQN" (-4)) = [] ∧ PopGen.create_population "SAC" 4 = [] := by decide +kernel
+example : (PopGen.population true 2).map PopGen.Val.indexOf = [some 0, some 1] := by decide +kernel
+example : "Rainbow DQN" ∈ PopGen.algos ∧ "GRPO" ∈ PopGen.algos := by decide +kernel
+example : (PopGen.create_population "PPO" 4).map PopGen.toAgent = (initialPop 4).map some := by decide +kernel
+example : Reach exCfg (initialPop 4) (newPop exCfg (stableRank (keys 2 exPopB)) exPopB exDraws) :=
+  Reach.step (Reach.refl _) (by decide) (C05_ranking_exists 2 exPopB)
 
 end Tournament
